@@ -240,6 +240,11 @@ def strict_roundtrip(res, src, mode, kind):
             out = python_minifier.minify(src, remove_annotations=False, remove_pass=False, remove_literal_statements=False, combine_imports=False, hoist_literals=False,
                                          rename_locals=False, rename_globals=False, remove_object_base=False, convert_posargs_to_args=False, preserve_shebang=False,
                                          remove_asserts=False, remove_debug=False, remove_explicit_return_none=False, remove_builtin_exception_brackets=False, constant_folding=False)
+    except python_minifier.UnstableMinification as e:
+        # the printer DID produce text and the built-in self check found that it does not parse back to the tree: a failed round trip
+        res.add_violation('c02-self-check-rejected-printed-text', 'the text printed by %s does not parse back to the tree it was printed from (UnstableMinification: %s)' % (mode, str(e.exception)[:200]),
+                          {'source': src[:2000], 'output': str(getattr(e, 'minified', ''))[:2000], 'kind': kind})
+        return 1
     except Exception as e:   # noqa
         # no text was produced: that is C08's concern (minify must not raise), not a wrong round trip
         res.notes.setdefault('raised_instead_of_printing', collections.Counter())[type(e).__name__] += 1
